@@ -26,6 +26,7 @@ CONSTANTS MaxT,      \* thresholds 0..MaxT are dealt (0 is refused by Create)
           AltN       \* alterations are applied in dealings to at most AltN ids (see Call)
 
 Rq(x) == x % Q                       \* every argument is a natural number here
+InvT  == [x \in ZqStar |-> Pow(x, Q - 2)]     \* table of inverses (Fermat), evaluated once
 Representable(p) == p \in ZqStar     \* dlog of a point that crypto.ECPoint can hold
 
 (***************************************************************************)
@@ -94,7 +95,7 @@ TimesLoop(xs, i, j, times) ==          \* -1: no inverse
   ELSE IF j = i THEN TimesLoop(xs, i, j + 1, times)
   ELSE LET sub == Sub(Rq(xs[j]), Rq(xs[i]))
        IN IF sub = 0 THEN -1
-          ELSE TimesLoop(xs, i, j + 1, Rq(times * Rq(Rq(xs[j]) * Inv(sub))))
+          ELSE TimesLoop(xs, i, j + 1, Rq(times * Rq(Rq(xs[j]) * InvT[sub])))
 
 RECURSIVE ReconLoop(_, _, _, _)
 ReconLoop(xs, ss, i, secret) ==
@@ -171,6 +172,17 @@ AlteredCommitFails(d, c) == (c.op = "V" /\ c.kind = "commit") =>
 \* a commitment vector of the wrong length / a threshold that is not the share's never verifies
 ShapeFails(d, c) == (c.op = "V" /\ c.kind = "shape") => ~c.res
 
+\* textbook Lagrange interpolation at 0: sum_i s_i * prod_{j # i} (0 - x_j) / (x_i - x_j)   (Zq!Interp with table inverses)
+RECURSIVE BasisAtZero(_, _, _)
+BasisAtZero(xs, i, j) ==
+  IF j > Len(xs) THEN 1
+  ELSE IF j = i THEN BasisAtZero(xs, i, j + 1)
+  ELSE Mul(Mul(Neg(xs[j]), InvT[Sub(xs[i] % Q, xs[j] % Q)]), BasisAtZero(xs, i, j + 1))
+RECURSIVE InterpAtZeroFrom(_, _, _)
+InterpAtZeroFrom(xs, ss, i) ==
+  IF i > Len(xs) THEN 0 ELSE Add(Mul(ss[i] % Q, BasisAtZero(xs, i, 1)), InterpAtZeroFrom(xs, ss, i + 1))
+InterpAtZero(xs, ss) == InterpAtZeroFrom(xs, ss, 1)
+
 \* every subset of at least t+1 shares reconstructs exactly the secret; the code-shaped Lagrange loop is the
 \* textbook interpolation at 0; fewer than t shares are refused, t shares give the value at 0 of the polynomial of
 \* degree < t through them (which is unrelated to the secret: Secrecy below)
@@ -179,7 +191,7 @@ Reconstruction(d, c) == c.op = "R" =>
        ss == Pick(d.shares, c.idx)
    IN /\ Len(c.idx) >= d.t + 1 => c.res = Rq(d.secret)
       /\ Len(c.idx) < d.t => c.res = -1
-      /\ Len(c.idx) >= d.t => c.res = Interp(xs, ss, 0)
+      /\ Len(c.idx) >= d.t => c.res = InterpAtZero(xs, ss)
 
 CallOK(d, c) == Sound(c) /\ OwnVerifies(d, c) /\ OtherIdFails(d, c) /\ AlteredShareFails(d, c)
                 /\ AlteredCommitFails(d, c) /\ ShapeFails(d, c) /\ Reconstruction(d, c)
@@ -255,6 +267,9 @@ Spec == Init /\ [][Next]_vars
 InvSecrecy == (p # None /\ d = None /\ p.t >= 1 /\ CheckIndexes(p.ids)) => Secrecy(p.t, p.ids)
 InvDeal    == (d # None /\ c = None) => DealOK(d)
 InvCall    == c # None => CallOK(d, c)
+\* InterpAtZero is Zq!Interp at 0 (checked in the model-checking runs only: Zq!Inv is a Fermat recursion, slow for large Q)
+InvInterp  == (c # None /\ c.op = "R" /\ Len(c.idx) >= d.t) =>
+                 InterpAtZero(Pick(d.ids, c.idx), Pick(d.shares, c.idx)) = Interp(Pick(d.ids, c.idx), Pick(d.shares, c.idx), 0)
 \* the code-shaped evaluation loop is Horner evaluation
 InvEval    == (d # None /\ c = None /\ d.t >= 1) => \A i \in 1..Len(d.ids) : EvaluatePolynomial(d.t, d.a, d.ids[i]) = F(d, d.ids[i])
 =============================================================================
